@@ -62,18 +62,28 @@ DeliverTags(pre, c, e) ==
                ELSE own \cup (IF PoolDiffers(post, want) THEN {"C20"} ELSE {}))
               \* (b) the properties' own statements
               \cup (IF tx.kind \in AppsKinds
-                    THEN (IF Step_C28_New(pre, c, tx, post, ok) /\ Step_C28_Transfer(pre, c, tx, post, ok)
+                    THEN (IF Step_C28_NewAt(pre, c, tx, h, post, ok) /\ Step_C28_Transfer(pre, c, tx, post, ok)
                              /\ Step_C28_Edit(pre, c, tx, post, ok) THEN {} ELSE {"C28"})
                          \cup (IF Step_C23_App(pre, c, tx, post, ok) THEN {} ELSE {"C23"})
                          \cup (IF Step_C24_Deliver(pre, c, tx, t, post, ok) THEN {} ELSE {"C24"})
                     ELSE {})
+
+\* BeginBlock leaves the application records and indexes alone, except for the queue duplicates of the
+\* state conversion on the codec upgrade height (slots compared as bags)
+SlotBag(names) == [x \in SeqToSet(names) |-> Cardinality({i \in 1..Len(names) : names[i] = x})]
+SameQueue(q1, q2) == /\ Len(q1) = Len(q2)
+                     /\ \A i \in 1..Len(q1) : q1[i][1] = q2[i][1] /\ SlotBag(q1[i][2]) = SlotBag(q2[i][2])
+BeginBlockTags(pre, c, e) ==
+    LET post == Canon(e.st)
+        want == AppsBeginBlock(pre, c, e.h)
+    IN IF post.app = want.app /\ post.appIx = want.appIx /\ SameQueue(post.appUnst, want.appUnst) THEN {} ELSE {"C24"}
 
 EndBlockTags(pre, c, e) ==
     LET post == Canon(e.st)
         want == AppsEndBlock(pre, c, e.h, e.t)
     IN (IF AppsFocus(post) = AppsFocus(want) THEN {}
         ELSE {"C24"} \cup (IF PoolDiffers(post, want) THEN {"C20"} ELSE {}))
-       \cup (IF Step_C24_EndBlock(pre, e.t, post) THEN {} ELSE {"C24"})
+       \cup (IF Step_C24_EndBlockAt(pre, c, e.h, e.t, post) THEN {} ELSE {"C24"})
 
 \* state predicates at committed heights
 CommitTags(c, e, don) ==
@@ -99,6 +109,7 @@ TraceNext ==
            don  == IF e.ev = "reset" THEN 0
                    ELSE IF e.ev = "DeliverTx" THEN donated + Donation(pre, c, e) ELSE donated
            tags == CASE e.ev = "DeliverTx" -> DeliverTags(pre, c, e)
+                     [] e.ev = "BeginBlock" -> BeginBlockTags(pre, c, e)
                      [] e.ev = "EndBlock"  -> EndBlockTags(pre, c, e)
                      [] e.ev = "Commit"    -> CommitTags(c, e, don)
                      [] OTHER              -> {}
